@@ -4,7 +4,8 @@
 //!  A. `fontir::ir::NameBuilder` (public) on generated `add` sequences: the fallback chain for
 //!     family / style / version / unique id / full / PostScript names;
 //!  B. `fontir::ir::StaticMetadata::new` (public) on generated name maps, axes and instances: the
-//!     name-id registration. The input HashMap's iteration order is observed and handed to the model;
+//!     name-id registration. Every source goes through several calls on fresh HashMaps (16 when the
+//!     source supplies ids above 255); each call's iteration order is observed and handed to the model;
 //!  C. whole fonts compiled in-process from generated designspace + UFO sources (fontinfo naming
 //!     fields, axis label names, instances, names from FEA: featureNames, cvParameters, size,
 //!     STAT, name table), decoded with read-fonts (name, fvar, STAT, GSUB/GPOS feature params).
@@ -496,6 +497,7 @@ struct Tally {
     viol: BTreeMap<String, usize>,
     fonts_compiled: usize,
     font_builds: usize,
+    alloc_calls: usize,
 }
 fn viol(t: &mut Tally, key: &str, desc: String, extra: serde_json::Value) {
     let n = t.viol.entry(key.to_string()).or_insert(0);
@@ -675,6 +677,68 @@ fn gen_insts(rng: &mut Rng, axes: &[AxisCfg], n: usize, extra_names: &[String]) 
     v
 }
 
+type NameRec = (u16, u16, String); // (name id, encoding id, string)
+
+/// One call of the real `StaticMetadata::new` on a FRESH HashMap (new RandomState, so a new
+/// iteration order). Returns the iteration order the call saw and the resulting name table.
+fn alloc_once(src: &[(u16, String)], axes: &[AxisCfg], insts: &[InstCfg]) -> (Vec<NameRec>, Result<Vec<NameRec>, String>) {
+    let names: HashMap<NameKey, String> = src.iter().map(|(i, s)| (NameKey::new(NameId::new(*i), s), s.clone())).collect();
+    // the iteration order StaticMetadata::new will see (a move does not rehash)
+    let order: Vec<NameRec> = names.iter().map(|(k, v)| (k.name_id.to_u16(), k.encoding_id, v.clone())).collect();
+    let ir_axes: Vec<Axis> = axes
+        .iter()
+        .map(|a| {
+            let (mn, df, mx) = (UserCoord::new(a.min as f64), UserCoord::new(a.def as f64), UserCoord::new(a.max as f64));
+            Axis {
+                name: a.name.clone(),
+                tag: Tag::from_str(&a.tag).unwrap(),
+                min: mn,
+                default: df,
+                max: mx,
+                hidden: false,
+                converter: CoordConverter::unmapped(mn, df, mx),
+                localized_names: a.label.iter().map(|l| ("en".to_string(), l.clone())).chain([("fr".to_string(), "Graisse".to_string())]).collect(),
+            }
+        })
+        .collect();
+    let ir_insts: Vec<NamedInstance> = insts
+        .iter()
+        .map(|i| NamedInstance {
+            name: i.style.clone(),
+            postscript_name: i.ps.clone(),
+            location: axes.iter().zip(i.loc.iter()).map(|(a, v)| (Tag::from_str(&a.tag).unwrap(), UserCoord::new(*v as f64))).collect::<Vec<_>>().into(),
+        })
+        .collect();
+    let default_loc: NormalizedLocation = axes.iter().filter(|a| !a.is_point()).map(|a| (Tag::from_str(&a.tag).unwrap(), NormalizedCoord::new(0.0))).collect::<Vec<_>>().into();
+    let r = std::panic::catch_unwind(move || StaticMetadata::new(1000, names, ir_axes, ir_insts, HashSet::from([default_loc]), None, 0.0, None, false));
+    let out = match r {
+        Ok(Ok(sm)) => {
+            let mut out: Vec<NameRec> = sm.names.iter().map(|(k, v)| (k.name_id.to_u16(), k.encoding_id, v.clone())).collect();
+            out.sort();
+            Ok(out)
+        }
+        Ok(Err(e)) => Err(format!("error: {e}")),
+        Err(_) => Err("panic".to_string()),
+    };
+    (order, out)
+}
+
+/// Source name records above 255 of which two or more share a string, the largest id among them.
+fn gen_dup_high(rng: &mut Rng, shared: &str) -> Vec<(u16, String)> {
+    let ids: &[u16] = *rng.pick(&[&[256u16, 257][..], &[256, 257, 258], &[256, 300], &[257, 300, 301], &[256, 257, 258, 259], &[260, 256]]);
+    let mut v: Vec<(u16, String)> = ids.iter().map(|i| (*i, shared.to_string())).collect();
+    let top = *ids.iter().max().unwrap();
+    // sometimes one more record with its own string, below the top id
+    if rng.chance(1, 3) {
+        let other = (256..top).find(|i| !ids.contains(i));
+        if let Some(i) = other {
+            v.push((i, "Another source string".into()));
+        }
+    }
+    rng.shuffle(&mut v);
+    v
+}
+
 fn stream_alloc(rng: &mut Rng, n: usize, id: &mut usize, t: &mut Tally) {
     for _ in 0..n {
         // source names: reserved ids with strings that collide with labels / instance names
@@ -684,95 +748,116 @@ fn stream_alloc(rng: &mut Rng, n: usize, id: &mut usize, t: &mut Tally) {
                 src.push((i, if rng.chance(1, 2) { pick_s(rng, INST_NAMES) } else { pick_s(rng, FAMILIES) }));
             }
         }
-        if rng.chance(1, 8) {
+        // font-specific ids supplied by the source: distinct strings, or several records sharing one
+        let class = rng.below(16);
+        let mut shared: Option<String> = None;
+        if class < 2 {
             for i in [256u16, 257, 300] {
                 if rng.chance(1, 2) {
                     src.push((i, if rng.chance(1, 2) { pick_s(rng, LABELS) } else { "Source string".into() }));
                 }
             }
+        } else if class < 5 {
+            let sh = match rng.below(3) {
+                0 => pick_s(rng, LABELS),
+                1 => pick_s(rng, INST_NAMES),
+                _ => "Alternate a".to_string(),
+            };
+            src.extend(gen_dup_high(rng, &sh));
+            shared = Some(sh);
         }
         let high = src.iter().any(|(i, _)| *i > 255);
-        let nax = if high { rng.range(0, 2) as usize } else { rng.range(0, 3) as usize };
-        let axes = gen_axes(rng, nax, true);
+        let dup = shared.is_some();
+        let nax = if dup { rng.range(1, 2) as usize } else if high { rng.range(0, 2) as usize } else { rng.range(0, 3) as usize };
+        let mut axes = gen_axes(rng, nax, !dup);
         let extra: Vec<String> = src.iter().map(|(_, s)| s.clone()).collect();
-        let nin = if high { rng.range(0, 2) as usize } else { rng.range(0, 5) as usize };
-        let insts = gen_insts(rng, &axes, nin, &extra);
-        let names: HashMap<NameKey, String> = src.iter().map(|(i, s)| (NameKey::new(NameId::new(*i), s), s.clone())).collect();
-        // the iteration order StaticMetadata::new will see (a move does not rehash)
-        let order: Vec<(u16, u16, String)> = names.iter().map(|(k, v)| (k.name_id.to_u16(), k.encoding_id, v.clone())).collect();
-        let ir_axes: Vec<Axis> = axes
-            .iter()
-            .map(|a| {
-                let (mn, df, mx) = (UserCoord::new(a.min as f64), UserCoord::new(a.def as f64), UserCoord::new(a.max as f64));
-                Axis {
-                    name: a.name.clone(),
-                    tag: Tag::from_str(&a.tag).unwrap(),
-                    min: mn,
-                    default: df,
-                    max: mx,
-                    hidden: false,
-                    converter: CoordConverter::unmapped(mn, df, mx),
-                    localized_names: a.label.iter().map(|l| ("en".to_string(), l.clone())).chain([("fr".to_string(), "Graisse".to_string())]).collect(),
-                }
-            })
-            .collect();
-        let ir_insts: Vec<NamedInstance> = insts
-            .iter()
-            .map(|i| NamedInstance {
-                name: i.style.clone(),
-                postscript_name: i.ps.clone(),
-                location: axes.iter().zip(i.loc.iter()).map(|(a, v)| (Tag::from_str(&a.tag).unwrap(), UserCoord::new(*v as f64))).collect::<Vec<_>>().into(),
-            })
-            .collect();
-        let default_loc: NormalizedLocation = axes.iter().filter(|a| !a.is_point()).map(|a| (Tag::from_str(&a.tag).unwrap(), NormalizedCoord::new(0.0))).collect::<Vec<_>>().into();
-        let src_json = json!({"names_in_iteration_order": order, "axes": axes.iter().map(|a| json!({"label": a.ui_label(), "min": a.min, "default": a.def, "max": a.max})).collect::<Vec<_>>(),
-            "instances": insts.iter().map(|i| json!({"name": i.style, "ps": i.ps, "loc": i.loc})).collect::<Vec<_>>()});
-        let r = std::panic::catch_unwind(move || StaticMetadata::new(1000, names, ir_axes, ir_insts, HashSet::from([default_loc]), None, 0.0, None, false));
-        let sm = match r {
-            Ok(Ok(sm)) => sm,
-            Ok(Err(e)) => {
-                viol(t, "static-metadata-error", format!("StaticMetadata::new failed: {e}"), src_json);
-                continue;
+        let nin = if dup { rng.range(1, 3) as usize } else if high { rng.range(0, 2) as usize } else { rng.range(0, 5) as usize };
+        let mut insts = gen_insts(rng, &axes, nin, &extra);
+        if let Some(sh) = &shared {
+            // the shared string is also an axis label / an instance name in some cases
+            if rng.chance(1, 3) {
+                axes[0].label = Some(sh.clone());
             }
-            Err(_) => {
-                viol(t, "static-metadata-panic", "StaticMetadata::new panicked".into(), src_json);
-                continue;
+            if rng.chance(1, 3) {
+                insts[0].style = sh.clone();
             }
-        };
-        let mut out: Vec<(u16, u16, String)> = sm.names.iter().map(|(k, v)| (k.name_id.to_u16(), k.encoding_id, v.clone())).collect();
-        out.sort();
-        // ---- property predicate
+        }
         let variable: Vec<&AxisCfg> = axes.iter().filter(|a| !a.is_point()).collect();
-        for (i, s) in &src {
-            if !out.iter().any(|(oi, _, os)| oi == i && os == s) {
-                viol(t, "source-name-id-collision", format!("source name id {i} = {:?} is not in the result (registration reused the id): {:?}", s, out), src_json.clone());
+        let src_json = json!({"source_names": src, "axes": axes.iter().map(|a| json!({"label": a.ui_label(), "min": a.min, "default": a.def, "max": a.max})).collect::<Vec<_>>(),
+            "instances": insts.iter().map(|i| json!({"name": i.style, "ps": i.ps, "loc": i.loc})).collect::<Vec<_>>()});
+        // the same source through fresh HashMaps: every call has its own iteration orders
+        let reps = if high { 16 } else { 3 };
+        let mut outcomes: Vec<(Vec<NameRec>, Result<Vec<NameRec>, String>)> = Vec::new();
+        for _ in 0..reps {
+            let (order, out) = alloc_once(&src, &axes, &insts);
+            if !outcomes.iter().any(|(_, o)| *o == out) {
+                outcomes.push((order, out));
             }
         }
-        for a in &variable {
-            let l = a.ui_label();
-            if !out.iter().any(|(oi, _, os)| *oi >= 256 && *os == l) {
-                viol(t, if high { "source-name-id-collision" } else { "axis-label-unregistered" }, format!("axis label {:?} has no record with id >= 256: {:?}", l, out), src_json.clone());
-            }
+        t.alloc_calls += reps;
+        if outcomes.len() > 1 {
+            let show: Vec<String> = outcomes.iter().map(|(_, o)| match o {
+                Ok(v) => format!("{:?}", v.iter().filter(|r| r.0 > 255).collect::<Vec<_>>()),
+                Err(e) => e.clone(),
+            }).collect();
+            viol(t, if high { "names-depend-on-hash-order" } else { "name-alloc-hash-order" },
+                format!("{reps} calls of StaticMetadata::new on one source (fresh HashMaps) gave {} different name tables; ids above 255: {}", outcomes.len(), show.join("  vs  ")), src_json.clone());
         }
-        if !variable.is_empty() {
-            for i in &insts {
-                if !out.iter().any(|(_, _, os)| *os == i.style) {
-                    viol(t, if high { "source-name-id-collision" } else { "instance-name-unregistered" }, format!("instance name {:?} has no record", i.style), src_json.clone());
+        let kind = if dup { "alloc:source-ids-above-255-shared-string" } else if high { "alloc:source-ids-above-255" } else if variable.is_empty() { "alloc:static" } else { "alloc:variable" };
+        *t.by_kind.entry(kind.to_string()).or_insert(0) += 1;
+        for (order, out) in outcomes {
+            let mut sj = src_json.clone();
+            sj["names_in_iteration_order"] = json!(order);
+            let out = match out {
+                Ok(o) => o,
+                Err(e) => {
+                    viol(t, if e == "panic" { "static-metadata-panic" } else { "static-metadata-error" }, format!("StaticMetadata::new: {e}"), sj);
+                    continue;
                 }
-                if let Some(p) = &i.ps {
-                    if !out.iter().any(|(oi, _, os)| *oi >= 256 && os == p) {
-                        viol(t, if high { "source-name-id-collision" } else { "instance-psname-unregistered" }, format!("PostScript name {:?} has no record with id >= 256", p), src_json.clone());
+            };
+            // ---- property predicate
+            // every source record is still there with its string, under its id
+            for (i, s) in &src {
+                if !out.iter().any(|(oi, _, os)| oi == i && os == s) {
+                    let now: Vec<&NameRec> = out.iter().filter(|r| r.0 == *i).collect();
+                    viol(t, "source-name-record-overwritten", format!("source name record {i} = {:?} is gone after StaticMetadata::new; name id {i} now holds {:?} (an invented id equals a source id). Result: {:?}", s, now, out), sj.clone());
+                }
+            }
+            // nothing but source records under source ids, and one record per invented string
+            let src_ids: BTreeSet<u16> = src.iter().map(|(i, _)| *i).collect();
+            let invented: Vec<&NameRec> = out.iter().filter(|r| !src.iter().any(|(i, s)| *i == r.0 && *s == r.2)).collect();
+            for r in &invented {
+                if src_ids.contains(&r.0) {
+                    viol(t, "source-name-record-overwritten", format!("invented record {:?} uses a name id the source already uses", r), sj.clone());
+                }
+                if r.0 < 256 {
+                    viol(t, "invented-id-reserved", format!("invented record {:?} has a reserved id", r), sj.clone());
+                }
+            }
+            for a in &variable {
+                let l = a.ui_label();
+                if !out.iter().any(|(oi, _, os)| *oi >= 256 && *os == l) {
+                    viol(t, "axis-label-unregistered", format!("axis label {:?} has no record with id >= 256: {:?}", l, out), sj.clone());
+                }
+            }
+            if !variable.is_empty() {
+                for i in &insts {
+                    if !out.iter().any(|(_, _, os)| *os == i.style) {
+                        viol(t, "instance-name-unregistered", format!("instance name {:?} has no record", i.style), sj.clone());
+                    }
+                    if let Some(p) = &i.ps {
+                        if !out.iter().any(|(oi, _, os)| *oi >= 256 && os == p) {
+                            viol(t, "instance-psname-unregistered", format!("PostScript name {:?} has no record with id >= 256", p), sj.clone());
+                        }
                     }
                 }
             }
+            // ---- model (given the iteration order this call saw)
+            let coq = format!("alloc_agrees {} {} {} {}", c_names(&order), c_axes(&axes), c_insts(&insts), c_names(&out));
+            let show = format!("extend {o} (alloc {o} {} {})", c_axes(&axes), c_insts(&insts), o = c_names(&order));
+            emit_case(*id, "alloc", coq, Some(show), !variable.is_empty(), format!("al:{:?}{:?}{:?}", order, axes, insts), json!({"src": sj, "impl": out}));
+            *id += 1;
         }
-        // ---- model
-        let kind = if high { "alloc:source-ids-above-255" } else if variable.is_empty() { "alloc:static" } else { "alloc:variable" };
-        *t.by_kind.entry(kind.to_string()).or_insert(0) += 1;
-        let coq = format!("alloc_agrees {} {} {} {}", c_names(&order), c_axes(&axes), c_insts(&insts), c_names(&out));
-        let show = format!("extend {o} (alloc {o} {} {})", c_axes(&axes), c_insts(&insts), o = c_names(&order));
-        emit_case(*id, "alloc", coq, Some(show), !variable.is_empty(), format!("al:{:?}{:?}{:?}", order, axes, insts), json!({"src": src_json, "impl": out}));
-        *id += 1;
     }
 }
 
@@ -909,15 +994,39 @@ fn gen_cfg(rng: &mut Rng) -> Cfg {
     if rng.chance(1, 12) {
         c.records.push((*rng.pick(&[9u16, 25, 256, 257, 300]), pick_s(rng, &["Source record", "Weight", "Bold"])));
     }
+    // several source records above 255 that share a string, the largest id among them
+    let dup_shared: Option<String> = if c.records.is_empty() && rng.chance(1, 10) {
+        Some(match rng.below(3) {
+            0 => pick_s(rng, LABELS),
+            1 => pick_s(rng, INST_NAMES),
+            _ => "Alternate a".to_string(),
+        })
+    } else {
+        None
+    };
+    if let Some(sh) = &dup_shared {
+        c.records.extend(gen_dup_high(rng, sh));
+    }
     let nax = match rng.below(8) {
         0 | 1 => 0,
         2..=5 => 1,
         _ => 2,
     };
-    c.axes = gen_axes(rng, nax, nax == 2);
+    let nax = if dup_shared.is_some() { nax.max(1) } else { nax };
+    c.axes = gen_axes(rng, nax, nax == 2 && dup_shared.is_none());
     let extra = vec![c.family.clone(), c.style.clone()];
     let nin = if nax == 0 { rng.below(2) as usize } else { rng.range(0, 4) as usize };
+    let nin = if dup_shared.is_some() { nin.max(1) } else { nin };
     c.instances = gen_insts(rng, &c.axes, nin, &extra);
+    if let Some(sh) = &dup_shared {
+        // the shared string is also an axis label / an instance name in some cases
+        if rng.chance(1, 3) {
+            c.axes[0].label = Some(sh.clone());
+        }
+        if rng.chance(1, 3) {
+            c.instances[0].style = sh.clone();
+        }
+    }
     if rng.chance(2, 5) {
         c.fea = Some(gen_fea(rng, &c.axes));
     }
@@ -944,6 +1053,10 @@ fn scenarios() -> Vec<(&'static str, Cfg, usize)> {
     let mut c = base.clone();
     c.records.push((256, "Source 256".into()));
     v.push(("source-record-256", c, 10));
+    let mut c = base.clone();
+    c.records.push((256, "Alternate a".into()));
+    c.records.push((257, "Alternate a".into()));
+    v.push(("source-records-256-257-same-string", c, 16));
     let mut c = base.clone();
     c.records.push((1, "B\u{1D400}".into()));
     c.info.push(("styleMapFamilyName".into(), "Fam".into()));
@@ -1182,8 +1295,9 @@ fn check_font(t: &mut Tally, c: &Cfg, d: &Decoded, version: &str, sj: &serde_jso
     }
     // source records with ids above 255 survive
     for (id, s) in &c.records {
-        if *id > 255 && win_string(d, *id).as_deref() != Some(s.as_str()) && !fea.explicit.iter().any(|(i, _)| i == id) {
-            viol(t, "source-name-id-collision", format!("openTypeNameRecords gives name id {id} = {:?}; the font has {:?}", s, win_string(d, *id)), sj.clone());
+        // (FEA records with ids above 255 are moved past every IR id, so they never replace one)
+        if *id > 255 && win_string(d, *id).as_deref() != Some(s.as_str()) {
+            viol(t, "source-name-record-overwritten", format!("openTypeNameRecords gives name id {id} = {:?}; the compiled name table has {:?} under that id", s, win_string(d, *id)), sj.clone());
         }
     }
     // ---- family / style / version fields (direct, coarse; the exact table is the model's)
@@ -1267,7 +1381,7 @@ fn run_font(t: &mut Tally, id: &mut usize, label: &str, c: &Cfg, reps: usize, ve
         let fonts: Vec<&Decoded> = outcomes.values().filter_map(|o| o.0.as_ref()).collect();
         let counts: Vec<usize> = outcomes.values().map(|o| o.1).collect();
         let high = c.records.iter().any(|(i, _)| *i > 255);
-        let key = if high { "source-name-id-collision" } else { "name-alloc-hash-order" };
+        let key = if high { "names-depend-on-hash-order" } else { "name-alloc-hash-order" };
         let what = if fonts.len() > 1 {
             format!("names {:?} vs {:?}", fonts[0].names.iter().filter(|n| n.0 > 255).collect::<Vec<_>>(), fonts[1].names.iter().filter(|n| n.0 > 255).collect::<Vec<_>>())
         } else {
@@ -1333,7 +1447,9 @@ fn stream_fonts(rng: &mut Rng, n: usize, id: &mut usize, t: &mut Tally) {
         let c = gen_cfg(rng);
         // a second build for every fourth source, more when strings coincide
         let coincide = c.instances.iter().any(|i| i.style == c.family || i.style == c.style || is_ribbi(&i.style)) && !c.axes.is_empty();
-        let reps = if coincide { 3 } else if k % 4 == 0 { 2 } else { 1 };
+        let high: Vec<&(u16, String)> = c.records.iter().filter(|(i, _)| *i > 255).collect();
+        let shared = high.iter().any(|(i, s)| high.iter().any(|(j, u)| i != j && s == u));
+        let reps = if shared && !c.axes.is_empty() { 8 } else if !high.is_empty() && !c.axes.is_empty() { 4 } else if coincide { 3 } else if k % 4 == 0 { 2 } else { 1 };
         run_font(t, id, &format!("gen{k}"), &c, reps, &version);
     }
 }
@@ -1347,10 +1463,10 @@ fn main() {
     let nfonts = arg_val(args, "--fonts", 60) as usize;
     let mut rng = Rng::new(seed);
     let mut id = 0usize;
-    let mut t = Tally { by_kind: BTreeMap::new(), viol: BTreeMap::new(), fonts_compiled: 0, font_builds: 0 };
+    let mut t = Tally { by_kind: BTreeMap::new(), viol: BTreeMap::new(), fonts_compiled: 0, font_builds: 0, alloc_calls: 0 };
     stream_namebuilder(&mut rng, n, &mut id, &mut t);
     stream_alloc(&mut rng, n, &mut id, &mut t);
     stream_fonts(&mut rng, nfonts, &mut id, &mut t);
-    emit_stat(json!({"inputs": t.by_kind, "violations_by_key": t.viol, "fonts_compiled": t.fonts_compiled, "font_builds": t.font_builds,
-        "extra_evaluations": t.font_builds - t.fonts_compiled}));
+    emit_stat(json!({"inputs": t.by_kind, "violations_by_key": t.viol, "fonts_compiled": t.fonts_compiled, "font_builds": t.font_builds, "static_metadata_calls": t.alloc_calls,
+        "extra_evaluations": t.font_builds - t.fonts_compiled + t.alloc_calls.saturating_sub(n)}));
 }
